@@ -23,6 +23,7 @@ pub struct Cx<'a> {
 /// class `<field>:rejected` / panic
 fn dj(cx: &Cx, field: &str, f: &[u8]) -> Option<Value> {
     cx.n.fetch_add(1, Ordering::Relaxed);
+    set_case_bytes(3, f);
     match guarded(|| Message::try_from(f).map_err(|e| e.to_string())) {
         Err(p) => {
             cx.rep.violation(&format!("{field}:panic:{}", panic_class(&p)), format!("decoder panicked on {}: {p}", hexs(f)), json!({"frame": hexs(f), "field": field}));
